@@ -4,6 +4,7 @@
 #include <algorithm>
 #include <cmath>
 #include <cstdio>
+#include <map>
 
 namespace vf {
 
@@ -116,7 +117,15 @@ struct Resolve {
 	}
 
 	// which child region r takes when resolved by 'kind'; commit = record it as the expectation
+	std::map<std::pair<int,int>, int> memoHow;
+	std::map<std::pair<int,int>, int> memo;   // (request, region) -> child: a region is resolved (and draws) once per request
 	int chooseChild(int r, int kind, int by, bool commit) {
+		const std::pair<int,int> key(by, r);
+		auto it = memo.find(key);
+		if (it != memo.end()) {
+			if (commit && it->second >= 0) { set(r, it->second, memoHow[key], by); descend(sh.kids[size_t(r)][size_t(it->second)], kind, by); }
+			return it->second;
+		}
 		int eff = kind;
 		if (kind == K_CHANGE) {
 			switch (sh.st[size_t(r)].strategy) { case 0: eff = K_RESTART; break; case 1: eff = K_RESUME; break; case 2: eff = K_SELECT; break; case 3: eff = K_UTILIZE; break; default: eff = K_RANDOMIZE; break; }
@@ -155,6 +164,7 @@ struct Resolve {
 			break; }
 		default: c = 0; break;
 		}
+		memo[key] = c; memoHow[key] = eff;
 		if (commit && c >= 0) {
 			set(r, c, eff, by);
 			descend(sh.kids[size_t(r)][size_t(c)], kind, by);
@@ -200,11 +210,14 @@ struct Resolve {
 		for (int s = 0; s < sh.n; ++s) wasActive[size_t(s)] = willBeActive(s) && (s == 0 ? before.on : true);
 		for (auto& pc : path) set(pc.first, pc.second, 100, by);
 		// orthogonal regions on the path that were not active before this request: siblings of the path child resolve by kind
+		// ... and orthogonal regions between the destination and its nearest composite ancestor are (re-)entered as a whole:
+		// the request targets that ancestor's sub-state, so its other branches resolve by the kind as well
 		c = q.dest;
+		bool belowNearest = sh.compoParent(q.dest) >= 0;   // with no composite ancestor at all nothing is re-entered
 		for (int p = sh.st[size_t(q.dest)].parent; p >= 0; c = p, p = sh.st[size_t(p)].parent) {
-			if (!sh.isOrtho(p)) continue;
+			if (sh.isCompo(p)) { belowNearest = false; continue; }
 			const bool pWas = wasActive[size_t(p)] && before.on;
-			if (pWas) continue;
+			if (pWas && !belowNearest) continue;
 			for (int ch : sh.kids[size_t(p)]) if (ch != c) descend(ch, q.kind, by);
 		}
 		// the destination itself
@@ -283,7 +296,14 @@ static void checkDelivery(World& w, int i, const Op& op, const Obs& before) {
 			std::snprintf(b, sizeof b, "%s: %s phase %s: callback #%zu differs: delivered to %d%s, expected %d%s (consumer=%d, %zu delivered, %zu expected)", h.role.c_str(), opName(op.kind), methodName(ph.method), k,
 				k < ran.size() ? ran[k].first : -1, (k < ran.size() && ran[k].second) ? "(injected)" : "", k < expect.size() ? expect[k].first : -1, (k < expect.size() && expect[k].second) ? "(injected)" : "", consumer, ran.size(), expect.size());
 			std::string tag;
-			if (consumer >= 0 && !sh.isRegion(consumer) && sh.st[size_t(consumer)].parent >= 0 && sh.isOrtho(sh.st[size_t(consumer)].parent) && ran.size() > expect.size()) tag = "consume_ortho_leaf_siblings";
+			if (consumer >= 0 && ran.size() > expect.size() && k == expect.size()) {
+				bool allOrthoLeaves = true;
+				std::set<int> expected; for (auto& x : expect) expected.insert(x.first);
+				for (auto& x : ran) if (!expected.count(x.first)) { const int par = sh.st[size_t(x.first)].parent; if (sh.isRegion(x.first) || par < 0 || !sh.isOrtho(par)) allOrthoLeaves = false; }
+				// the order of what was delivered must still be the documented one
+				std::vector<std::pair<int,int>> filtered; for (auto& x : ran) if (expected.count(x.first)) filtered.push_back(x);
+				if (allOrthoLeaves && filtered == expect) tag = "consume_ortho_leaf_siblings";
+			}
 			w.violate("C05.order", b, i, tag);
 			return;
 		}
@@ -362,13 +382,25 @@ static void checkRounds(World& w, int i, const Op& op, const Obs& before, const 
 			if (e.k != EV_CB || !isLifecycle(e.method)) continue;
 			w.checked("C04.guarded_change");
 			const bool ok = e.method == M_EXIT ? exitOk.count(e.state) > 0 : entryOk.count(e.state) > 0;
-			if (!ok) { std::snprintf(b, sizeof b, "%s: state %d received %s although its %s guard was not consulted in an approved round", h.role.c_str(), e.state, methodName(e.method), e.method == M_EXIT ? "exit" : "entry"); w.violate("C04.guarded_change", b, i); break; }
+			if (!ok) {
+				std::snprintf(b, sizeof b, "%s: state %d received %s although its %s guard was not consulted in an approved round", h.role.c_str(), e.state, methodName(e.method), e.method == M_EXIT ? "exit" : "entry");
+				// documented: a request naming an orthogonal region (or the orthogonal root) batched with a request for one of its branches
+				std::string tag;
+				for (int o = sh.st[size_t(e.state)].parent; o >= 0 && tag.empty(); o = sh.st[size_t(o)].parent) {
+					if (!sh.isOrtho(o)) continue;
+					bool whole = false, branch = false;
+					for (auto& q : st.approved) { if (q.kind == K_SCHEDULE) continue; if (q.dest == o || (q.dest >= 0 && q.dest < o)) whole = true; else if (q.dest > o && sh.inSubtree(q.dest, o)) branch = true; }
+					if (whole && branch) tag = "ortho_partial_guard_forwarding";
+				}
+				w.violate("C04.guarded_change", b, i, tag); break;
+			}
 		}
 	}
 	// (e) every round vetoed: nothing happens
 	bool allVetoed = true; bool anySchedule = false;
 	for (auto& r : st.rounds) { if (!r.cancelled) allVetoed = false; for (auto& q : r.pending) if (q.kind == K_SCHEDULE) anySchedule = true; }
 	for (auto& q : before.queued) if (q.kind == K_SCHEDULE) anySchedule = true;
+	for (auto& e : h.trace) if (e.k == EV_ISSUE && e.a == K_SCHEDULE) anySchedule = true;
 	if (allVetoed && processingOp(op)) {
 		w.checked("C04.veto_atomic");
 		w.probe("all_rounds_vetoed");
@@ -413,6 +445,7 @@ static void checkGuardPending(World& w, int i, const Op& op, const Obs& before, 
 				if (pe == expE && !expE && !expX) tag = "pending_true_when_idle";                 // untouched region: exit/change spuriously true
 				else if (pe == expE && expX && !px) tag = "pending_exit_not_propagated";         // exits below a switched ancestor are not reported
 				else if (expE && !pe) tag = "pending_enter_not_propagated";                       // enters below a switched ancestor are not reported
+				else if (pe && !expE && px == expX && sh.usesUtility) tag = "pending_enter_stale_after_utility_evaluation";   // evaluating branches that are not chosen leaves their requests behind
 				w.violate("C13.guard_pending", b, i, tag);
 				return;
 			}
@@ -462,7 +495,9 @@ static void checkHistory(World& w, int i, const Op& op, const Obs& before, const
 			if (before.active[size_t(k)] || !s.obs.active[size_t(k)]) continue;
 			if (s.obs.lastTo[size_t(k)] != 0) {
 				std::snprintf(b, sizeof b, "%s: a single approved %s(%d) activated state %d, but lastTransitionTo(%d) is %s", h.role.c_str(), kindName(st.approved[0].kind), st.approved[0].dest, k, k, s.obs.lastTo[size_t(k)] < 0 ? "null" : "another entry");
-				w.violate("C09.last_to_single", b, i, sh.st[size_t(k)].headless ? "" : "");
+				bool util = st.approved[0].kind == K_UTILIZE || st.approved[0].kind == K_RANDOMIZE;
+				for (int x = sh.st[size_t(k)].parent; x >= 0; x = sh.st[size_t(x)].parent) if (sh.st[size_t(x)].strategy == 3 || sh.st[size_t(x)].strategy == 4) util = true;
+				w.violate("C09.last_to_single", b, i, util ? "last_to_unpinned_by_utility_resolution" : "");
 				return;
 			}
 		}
@@ -486,13 +521,14 @@ static void checkConfiguration(World& w, int i, const Op& op, const Obs& before,
 		Cfg empty = cb; std::fill(empty.resumable.begin(), empty.resumable.end(), -1); std::fill(empty.active.begin(), empty.active.end(), -1); empty.on = false;
 		Resolve r(sh, h.op, empty);
 		r.descend(0, K_CHANGE, 0);
+		if ((s.node->caps() & CAP_BUILTIN_RNG) && r.randomResolved > 0) return;   // draws of the built-in generator are not known to the model
 		w.checked("C02.reset");
 		for (int k = 0; k < sh.n; ++k) if (s.obs.resumable[size_t(k)]) { std::snprintf(b, sizeof b, "%s: after reset() state %d is still resumable", h.role.c_str(), k); w.violate("C02.reset", b, i); return; }
 		for (int g = 0; g < sh.n; ++g) {
 			if (!sh.isCompo(g) || ca.active[size_t(g)] < 0 || r.req[size_t(g)] < 0 || r.dontCare[size_t(g)]) continue;
 			if (ca.active[size_t(g)] != r.req[size_t(g)]) {
 				std::snprintf(b, sizeof b, "%s: after reset() region %d has sub-state %d active; its first activation (declared strategy %d) would pick %d", h.role.c_str(), g, ca.active[size_t(g)], sh.st[size_t(g)].strategy, r.req[size_t(g)]);
-				w.violate("C02.reset", b, i, sh.st[size_t(g)].strategy >= 2 ? "reset_ignores_declared_strategy" : ""); return;
+				w.violate("C02.reset", b, i); return;
 			}
 		}
 		return;
@@ -519,7 +555,22 @@ static void checkConfiguration(World& w, int i, const Op& op, const Obs& before,
 
 	Resolve r(sh, h.op, cb);
 	int nReal = 0;
-	for (size_t k = 0; k < st.approved.size(); ++k) { r.apply(st.approved[k], int(k)); if (st.approved[k].kind != K_SCHEDULE) ++nReal; }
+	std::vector<int> touched(size_t(sh.n), 0);   // by how many requests a region's choice may have been evaluated
+	for (size_t k = 0; k < st.approved.size(); ++k) {
+		const Tr& q = st.approved[k];
+		if (q.kind != K_SCHEDULE && q.dest >= 0 && q.dest < sh.n) {
+			// scope: the sub-tree below the first region where the path leaves the configuration expected so far
+			int root = q.dest, c = q.dest;
+			for (int p = sh.st[size_t(q.dest)].parent; p >= 0; c = p, p = sh.st[size_t(p)].parent)
+				if (sh.isCompo(p) && (r.req[size_t(p)] >= 0 ? r.req[size_t(p)] : cb.active[size_t(p)]) != sh.st[size_t(c)].prong) root = p;
+			if (root == q.dest) { int prong; const int np = sh.compoParent(q.dest, &prong); if (np >= 0) root = sh.kids[size_t(np)][size_t(prong)]; }
+			for (int x = root; x < root + sh.st[size_t(root)].size; ++x) ++touched[size_t(x)];
+			++nReal;
+		}
+		r.apply(q, int(k));
+	}
+	// scheduling requests issued by guards are applied in a later round that consults nobody
+	for (auto& e : h.trace) if (e.k == EV_ISSUE && e.a == K_SCHEDULE) { Tr t; t.kind = K_SCHEDULE; t.dest = e.b; r.apply(t, 1000); }
 	uint64_t hh = std::hash<std::string>()(sh.name);
 	for (auto a : before.active) hh = mix64(hh, a);
 	for (auto& q : st.approved) hh = mix64(hh, uint64_t(q.kind) * 64 + uint64_t(q.dest));
@@ -534,12 +585,13 @@ static void checkConfiguration(World& w, int i, const Op& op, const Obs& before,
 		for (int x = q.dest; x >= 0; x = sh.st[size_t(x)].parent)
 			if (!s.obs.active[size_t(x)]) {
 				std::snprintf(b, sizeof b, "%s: %s(%d) was approved (last of %zu) but state %d on its path is not active afterwards", h.role.c_str(), kindName(q.kind), q.dest, st.approved.size(), x);
-				w.violate("C02.destination_active", b, i); return;
+				w.violate("C02.destination_active", b, i, nReal > 1 ? "batch_later_request_not_overriding" : ""); return;
 			}
 		break;
 	}
 	// P2: entered / re-targeted regions picked the sub-state the rules prescribe
-	for (int g = 0; g < sh.n; ++g) {
+	const bool unknowableDraws = (s.node->caps() & CAP_BUILTIN_RNG) && r.randomResolved > 0;
+	if (!unknowableDraws) for (int g = 0; g < sh.n; ++g) {
 		if (!sh.isCompo(g) || r.req[size_t(g)] < 0 || ca.active[size_t(g)] < 0 || r.dontCare[size_t(g)]) continue;
 		if (!r.willBeActive(g) && g != 0) continue;
 		const int how = r.how[size_t(g)];
@@ -550,7 +602,7 @@ static void checkConfiguration(World& w, int i, const Op& op, const Obs& before,
 		w.checked(oracle);
 		if (how == K_RANDOMIZE) w.probe("random_region_resolved");
 		if (ca.active[size_t(g)] == r.req[size_t(g)]) continue;
-		if (r.conflict[size_t(g)]) {
+		if (r.conflict[size_t(g)] || touched[size_t(g)] > 1) {
 			std::snprintf(b, sizeof b, "%s: region %d: requests of one batch disagree; the later one prescribes sub-state %d but %d is active", h.role.c_str(), g, r.req[size_t(g)], ca.active[size_t(g)]);
 			w.violate(oracle, b, i, "batch_later_request_not_overriding"); return;
 		}
